@@ -63,6 +63,9 @@ Keep == UNCHANGED <<bpb, pend, meta, rss, nrun>>
 TReset == /\ Is("Reset") /\ Step /\ DReset(Zero, Tids)
           /\ pend' = [t \in Tids |-> 0] /\ meta' = <<>> /\ UNCHANGED <<bpb, rss, nrun>>
 TStart == /\ Is("Start") /\ Step
+          \* C13: what a run may hold is linear in the worker count, with buffers no larger than one maximal block / I/O block
+          /\ Must(Ev.og <= 900000 /\ Ev.ig <= 1048576 /\ Ev.tout <= 32 * Ev.W + 8 /\ Ev.tin <= 8 * Ev.W + 8,
+                  "slot totals linear in the worker count, buffer sizes within one block")
           /\ Must(Ev.d = 1, "decompression run")
           /\ Must(\A t \in Tids : Carry(t) = None, "no job in flight")
           /\ DReset([Zero EXCEPT !.W = Ev.W, !.TotIn = Ev.tin, !.TotOut = Ev.tout, !.Ultra = (Ev.ultra = 1)], Tids)
@@ -234,7 +237,11 @@ TUninit == /\ Is("Uninit") /\ Step
                    "the heap is back to its size at the start of the run (nothing allocated for the run outlives it)")
            /\ rss' = Ev.rss /\ UNCHANGED <<dvars, bpb, pend, meta, nrun>>
 
-Next == \/ TReset \/ TStart \/ TInitX \/ TSrcTake \/ TSrcRel \/ TSrcClose \/ TSrcStop \/ TAvail \/ TAvailDrop \/ TEof
+\* the main thread's path through main.c / signals.c (validated by TraceCrash.tla) is stuttering here
+MainPathEv == {"OpIn", "Cli", "OpOut", "Worked", "Halt", "OutDone", "InRm", "Sti", "StiDone", "InDone", "Exit", "Cleanup", "Terminate", "BailoutMain", "BailoutSub"}
+TMainPath == l <= Len(TraceLog) /\ Ev.e \in MainPathEv /\ Step /\ UNCHANGED dvars /\ Keep
+
+Next == \/ TMainPath \/ TReset \/ TStart \/ TInitX \/ TSrcTake \/ TSrcRel \/ TSrcClose \/ TSrcStop \/ TAvail \/ TAvailDrop \/ TEof
         \/ TWStart \/ TWWait \/ TWWake \/ TWExit
         \/ TParseBegin \/ TParseMore \/ TParseFinish \/ TParseErr \/ TParseBlock
         \/ TRetrBegin \/ TRetrEnd \/ TRetrPush \/ TEmitBegin \/ TEmitEnd \/ TReorder
